@@ -81,6 +81,9 @@ type fnSig struct {
 	// (externFns), fields of package-level structs: name and Lean type, in the order of the generated definition; every
 	// caller passes them on (and so has them as parameters itself)
 	deps [][2]string
+	// the function calls itself: its definition has the additional parameter `fuel : Nat` (after deps); only the function
+	// itself may call it (loops_rec.go)
+	recursive bool
 }
 
 // externFns: library functions that are not modelled but passed in as PARAMETERS of the translated functions that use
@@ -442,7 +445,7 @@ func (t *loopTr) flowCall(st ast.Stmt, c *ast.CallExpr, sig *fnSig, lhs []ast.Ex
 		fmt.Fprintf(&b, "%slet %s : %s := %s\n", ind, name, t.objType(w.o), val)
 	}
 	b.WriteString(resB.String())
-	call := "(" + strings.Join(append(append(append([]string{sig.lean}, t.depArgs(sig)...), fieldArgs...), args...), " ") + ")"
+	call := "(" + strings.Join(append(append(t.calleeHead(c, sig), fieldArgs...), args...), " ") + ")"
 	if len(tys) == 0 {
 		t.fail(c, "call of %s, which has neither result nor effect", sig.lean)
 	}
@@ -507,7 +510,7 @@ func (t *loopTr) argValue(a ast.Expr) (string, lkind) {
 	} else {
 		t.fail(a, "slice expression %s: only variable[lo:hi] is supported", t.p.src(a))
 	}
-	if !k.isSlice() && k != kString {
+	if !k.isSlice() && k != kString && k != kMarshs {
 		t.fail(a, "slice expression on %s", k.lean())
 	}
 	if se.High != nil && k != kString {
@@ -537,6 +540,12 @@ func (t *loopTr) argValue(a ast.Expr) (string, lkind) {
 		n := t.sliceBound(se.Low, list)
 		return fmt.Sprintf("(%s.drop %s)", list, n), k
 	case se.Low == nil:
+		if tv := t.typeOf(se.High); tv.Value == nil && t.kindOf(tv.Type, se.High) == kUint {
+			// x[:hi] with a uint bound: hi ≤ len(x), compared unsigned
+			h, _ := t.expr(se.High)
+			t.addCheck(fmt.Sprintf("(Go.sliceFromU %s %s.length)", h, list))
+			return fmt.Sprintf("(%s.take %s.toNat)", list, h), k
+		}
 		hn, hb := bound(se.High)
 		t.addCheck(fmt.Sprintf("(Go.sliceOK 0#64 %s %s.length)", hb, list))
 		return fmt.Sprintf("(%s.take %s)", list, hn), k
@@ -745,7 +754,7 @@ func (t *loopTr) sigCall(x *ast.CallExpr, sig *fnSig) (string, lkind) {
 		t.fail(x, "unsupported call %s", t.p.src(x))
 	}
 	t.checkCapArgs(x, sig)
-	parts := append([]string{sig.lean}, t.depArgs(sig)...)
+	parts := t.calleeHead(x, sig)
 	for i, a := range x.Args {
 		v, k := t.argValue(a)
 		if k != sig.params[i] && !(sig.params[i] == kBytes && k == kString) {
@@ -758,7 +767,7 @@ func (t *loopTr) sigCall(x *ast.CallExpr, sig *fnSig) (string, lkind) {
 
 // register records the signature of the function just translated for later callers.
 func (t *loopTr) register(leanName string) {
-	sig := &fnSig{lean: leanName, rets: t.rets, flow: t.flowFn, method: t.fd.Recv != nil, errAt: t.errAt, pkg: t.set.tp.tpkg}
+	sig := &fnSig{lean: leanName, rets: t.rets, flow: t.flowFn, method: t.fd.Recv != nil, errAt: t.errAt, pkg: t.set.tp.tpkg, recursive: t.recursive}
 	if t.set.ns != "" {
 		sig.lean = t.set.ns + "." + leanName
 	}
@@ -879,8 +888,10 @@ func (t *loopTr) hoistCalls(ind string, m blockMode, skip *ast.CallExpr, ns ...a
 	if len(calls) == 0 {
 		return "", ""
 	}
-	if !m.flow {
-		t.fail(calls[0], "internal error: call of a function that may panic outside a flow block")
+	for _, c := range calls {
+		if sig, _ := t.sigOf(c); sig.flow && !m.flow {
+			t.fail(c, "internal error: call of a function that may panic outside a flow block")
+		}
 	}
 	if t.hoisted == nil {
 		t.hoisted = map[*ast.CallExpr]hoistedVal{}
@@ -892,7 +903,7 @@ func (t *loopTr) hoistCalls(ind string, m blockMode, skip *ast.CallExpr, ns ...a
 			t.fail(c, "call of %s inside an expression: only functions with one result that do not write into a parameter or a field are supported there (otherwise as a statement of its own)", sig.lean)
 		}
 		t.checkCapArgs(c, sig)
-		parts := append(append([]string{sig.lean}, t.depArgs(sig)...), t.readOnlyRecvArgs(c, sig)...)
+		parts := append(t.calleeHead(c, sig), t.readOnlyRecvArgs(c, sig)...)
 		for i, a := range c.Args {
 			v, k := t.argValue(a)
 			if k != sig.params[i] && !(sig.params[i] == kBytes && k == kString) {
@@ -902,8 +913,13 @@ func (t *loopTr) hoistCalls(ind string, m blockMode, skip *ast.CallExpr, ns ...a
 		}
 		b.WriteString(t.guards(c, ind, m))
 		name := t.freshName()
-		fmt.Fprintf(&b, "%sGo.Flow.bind (Go.call (%s)) (fun (%s : %s) =>\n", ind, strings.Join(parts, " "), name, sig.rets[0].lean())
 		t.hoisted[c] = hoistedVal{name, sig.rets[0]}
+		if !sig.flow {
+			// a method that cannot panic: its value, bound in front of the statement
+			fmt.Fprintf(&b, "%slet %s : %s := (%s)\n", ind, name, sig.rets[0].lean(), strings.Join(parts, " "))
+			continue
+		}
+		fmt.Fprintf(&b, "%sGo.Flow.bind (Go.call (%s)) (fun (%s : %s) =>\n", ind, strings.Join(parts, " "), name, sig.rets[0].lean())
 		post += ")"
 	}
 	return b.String(), post
@@ -1072,6 +1088,12 @@ func (t *loopTr) noteCapSensitive(x ast.Expr) {
 // translation could not see: it must not itself be a slice expression with an upper bound; a parameter of the caller
 // (or a window p[lo:] of one) is passed on under the same condition.
 func (t *loopTr) checkCapArgs(c *ast.CallExpr, sig *fnSig) {
+	if sig == t.selfSig && sig != nil {
+		// the parameters the function slices with an upper bound are only known when its body has been translated: the
+		// arguments are recorded and judged then (closeSelfCap)
+		t.noteSelfArgs(c)
+		return
+	}
 	for _, i := range sig.capIdx {
 		if i >= len(c.Args) {
 			continue
@@ -1173,6 +1195,9 @@ func (t *loopTr) mixesErrors() (at, opt bool) {
 							kinds[k] = true
 						}
 					}
+				}
+				if t.isMarshalCall(x) {
+					kinds[kErr] = true // the error of MarshalBinary(): an opaque name
 				}
 				if sel, ok := unparen(x.Fun).(*ast.SelectorExpr); ok && !inLit {
 					if f, ok := t.info.Uses[sel.Sel].(*types.Func); ok && f.Pkg() != nil && f.Pkg().Path() == "fmt" && f.Name() == "Errorf" {
